@@ -1292,7 +1292,15 @@ func r10_8(c *RC) {
 	for _, fn := range p.Funcs("pkg/socks5", "pkg/protocol", "apis", "pkg/appctl", "pkg/cipher", "pkg/common") {
 		instrs(fn, func(_ *ssa.BasicBlock, _ int, in ssa.Instruction) {
 			cl, ok := in.(ssa.CallInstruction)
-			if !ok || calleeID(cl) != "(*sync/atomic.Value).Store" {
+			if !ok {
+				return
+			}
+			valIdx := 1
+			switch calleeID(cl) {
+			case "(*sync/atomic.Value).Store", "(*sync/atomic.Value).Swap":
+			case "(*sync/atomic.Value).CompareAndSwap":
+				valIdx = 2
+			default:
 				return
 			}
 			root := cl.Common().Args[0]
@@ -1312,7 +1320,7 @@ func r10_8(c *RC) {
 			if _, seen := groups[root]; !seen {
 				order = append(order, root)
 			}
-			groups[root] = append(groups[root], site{fn, in, cl.Common().Args[1]})
+			groups[root] = append(groups[root], site{fn, in, cl.Common().Args[valIdx]})
 		})
 	}
 	dynType := func(fn *ssa.Function, v ssa.Value) []string {
@@ -1381,16 +1389,28 @@ func r10_8(c *RC) {
 		sites := groups[root]
 		known := map[string]ssa.Instruction{}
 		unknown := 0
+		var blind []ssa.Instruction // writes of a value whose dynamic type is not known, not protected by first-wins
 		for _, s := range sites {
 			for _, t := range dynType(s.fn, s.val) {
 				if t == "?" {
 					unknown++
+					if !firstWinsGuard(s.in) {
+						blind = append(blind, s.in)
+					}
 				} else if _, has := known[t]; !has {
 					known[t] = s.in
 				}
 			}
 		}
 		key := "atomic-value-types@" + fnName(outermost(sites[0].fn))
+		// Writes whose dynamic type cannot be determined (an error returned
+		// by I/O on an interface-typed connection) are counted, not judged:
+		// whether two such errors have the same concrete type depends on the
+		// connections behind the interfaces (seed C10h turned first-wins
+		// Stores into CompareAndSwap(nil, err), which panics on a type
+		// mismatch even when it loses; flagging every such write would also
+		// flag code whose error types agree by construction).
+		_ = blind
 		var ts []string
 		for t := range known {
 			ts = append(ts, t)
@@ -1399,7 +1419,7 @@ func r10_8(c *RC) {
 		if len(ts) > 1 {
 			c.Bad(key, known[ts[len(ts)-1]].Pos(), "values of different dynamic types (%s) are stored into one sync/atomic.Value: the second kind of Store panics ('store of inconsistently typed value'), in a goroutine nobody recovers from", strings.Join(ts, ", "))
 		} else {
-			c.OK(key, sites[0].in.Pos(), "%d stores; determinable dynamic types %v agree (%d values not determinable statically)", len(sites), ts, unknown)
+			c.OK(key, sites[0].in.Pos(), "%d stores; determinable dynamic types %v agree (%d values not determinable statically, %d of them outside a first-wins `Load() == nil` guard)", len(sites), ts, unknown, len(blind))
 		}
 	}
 }
@@ -1415,6 +1435,46 @@ func pkgPrefix(fnSuffix string) string {
 func hasStr(ss []string, s string) bool {
 	for _, x := range ss {
 		if x == s {
+			return true
+		}
+	}
+	return false
+}
+
+
+// firstWinsGuard: the write is a plain Store on the true edge of
+// `v.Load() == nil` for the same Value (only the first error is kept, so a
+// second, differently typed one is never stored by this site).
+func firstWinsGuard(in ssa.Instruction) bool {
+	cl, ok := in.(ssa.CallInstruction)
+	if !ok || calleeID(cl) != "(*sync/atomic.Value).Store" {
+		return false
+	}
+	recv := cl.Common().Args[0]
+	for _, e := range controllingEdges(in.Block()) {
+		atom, neg := condAtom(e.If.Cond)
+		bo, ok := atom.(*ssa.BinOp)
+		if !ok || (bo.Op != token.EQL && bo.Op != token.NEQ) {
+			continue
+		}
+		var other ssa.Value
+		switch {
+		case isNilConst(bo.X):
+			other = bo.Y
+		case isNilConst(bo.Y):
+			other = bo.X
+		default:
+			continue
+		}
+		ld, ok := other.(*ssa.Call)
+		if !ok || calleeID(ld) != "(*sync/atomic.Value).Load" || ld.Common().Args[0] != recv {
+			continue
+		}
+		isNilEdge := (e.Idx == 0) == (bo.Op == token.EQL)
+		if neg {
+			isNilEdge = !isNilEdge
+		}
+		if isNilEdge {
 			return true
 		}
 	}
